@@ -1461,7 +1461,14 @@ theorem scriptFor_ok (run : Run) (cond : Wait.Cond) (i : Id) :
       rcases hd with hd | hd <;> subst hd
       · exact ⟨rfl, fun _ _ _ => ⟨by simp, rfl, by simp⟩⟩
       · exact ⟨rfl, fun _ _ _ => ⟨fun _ => rfl, rfl, by simp⟩⟩
-    · rename_i h1 h2
+    · -- "replaced": not one of the `DelScriptsOK` scripts
+      rename_i h3
+      simp only [List.mem_singleton] at hc; subst hc
+      simp only [List.mem_singleton] at hd; subst hd
+      refine ⟨rfl, fun _ hdel _ => ?_⟩
+      exfalso
+      rcases getD_del_cases run hdel i with h | h | h <;> rw [h] at h3 <;> simp at h3
+    · rename_i h1 h2 h3
       simp only [List.mem_singleton] at hc; subst hc
       simp only [List.mem_singleton] at hd; subst hd
       refine ⟨rfl, fun _ hdel hfin => ?_⟩
